@@ -426,6 +426,7 @@ func c07(c *core.Check) {
 	scannerBoundsRule(c, r11)
 	c07ArityScenarios(c)
 	c07StridedLoops(c)
+	c07DateGroupsBounded(c)
 	r7 := c.Rule("R7", "svg.Parse cannot recurse forever on href references between definitions: inheritElement destroys the reference before following it", 1)
 	if ie := p.Lookup("svg.(*svgContext).inheritElement"); ie == nil {
 		r7.Anchor("svg.(*svgContext).inheritElement")
